@@ -80,7 +80,9 @@ def chunk(ctx, g):
 
 def active(ctx, g):
     """quick: every fourth chunk (a sample of the world); thorough: the whole world."""
-    return g < n_chunks() and (ctx.tier == "thorough" or g % 4 == 0)
+    # (quick: one chunk in four, at residues that rotate from one block of 16 cases to the next, so that the enumerated
+    #  cases spread evenly over 8 or 16 shards instead of landing on two of them)
+    return g < n_chunks() and (ctx.tier == "thorough" or (g + g // 16) % 4 == 0)
 
 
 def exhaustive(tier, counters):
